@@ -344,6 +344,49 @@ func c18(r *report.Run) {
 						if l.fail != rr.fail || l.norm != rr.norm {
 							report1(order, "in-range=comparison", m.String(), "value", lhs, rhs, v, l.norm+" != "+rr.norm, a+".."+b, x)
 						}
+						for _, form := range [][2]string{
+							{fmt.Sprintf("%s not in %s..%s", x, a, b), fmt.Sprintf("not (%s >= %s and %s <= %s)", x, a, x, b)},
+							{fmt.Sprintf("count([%s, %s], {# not in %s..%s})", x, x, a, b), fmt.Sprintf("count([%s, %s], {not (# >= %s and # <= %s)})", x, x, a, b)},
+							{fmt.Sprintf("filter([%s], {# in %s..%s})", x, a, b), fmt.Sprintf("filter([%s], {# >= %s and # <= %s})", x, a, b)},
+						} {
+							l := c18Run(form[0], m, henv.Make(v), vars, &extra)
+							rr := c18Run(form[1], m, henv.Make(v), vars, &extra)
+							if l.fail != rr.fail || l.norm != rr.norm {
+								report1(order, "not-in-range=negated-comparison", m.String(), "value", form[0], form[1], v, l.norm+" != "+rr.norm, a+".."+b, x)
+							}
+						}
+					}
+				}
+			}
+		}
+		// a collection created inside a closure does not disturb the collection being iterated
+		for _, xe := range xss {
+			if xe.R.Op == "nested-hash" || xe.Size() > 3 {
+				continue
+			}
+			xs := xe.String()
+			for _, ys := range []string{"0..#", "J..#", "#..I", "[#, 1]", "filter(0..#, {# > 1})", "map(J..#, {# + 1})", "1..2", "J..I"} {
+				vars := append([]string{}, gen.Vars(xe)...)
+				for _, nm := range []string{"I", "J"} {
+					if strings.Contains(ys, nm) && !strings.Contains(","+strings.Join(vars, ",")+",", ","+nm+",") {
+						vars = append(vars, nm)
+					}
+				}
+				for _, v := range henv.Valuations(vars) {
+					order++
+					for _, form := range [][2]string{
+						{"map(" + xs + ", {len(" + ys + ") >= 0 ? # : 0 - 1})", "map(" + xs + ", {#})"},
+						{"filter(" + xs + ", {len(" + ys + ") >= 0})", "filter(" + xs + ", {true})"},
+						{"count(" + xs + ", {any(" + ys + ", {# < 0 - 9}) or # == #})", "len(" + xs + ")"},
+					} {
+						l := c18Run(form[0], m, henv.Make(v), vars, &extra)
+						rr := c18Run(form[1], m, henv.Make(v), vars, &extra)
+						if rr.fail || strings.HasPrefix(l.norm, "compile:") || strings.HasPrefix(rr.norm, "compile:") {
+							continue
+						}
+						if l.fail || l.norm != rr.norm {
+							report1(order, "inner-collection-leaves-outer-alone", m.String(), "value", form[0], form[1], v, fmt.Sprintf("%s (failed=%v) != %s", l.norm, l.fail, rr.norm), xs, ys)
+						}
 					}
 				}
 			}
